@@ -214,13 +214,17 @@ package tree
 //@   ensures [C03] err: result1 != nil ==> result0 == nil
 //
 //@ fn node.clean
+//@   modifies []string:
 //@   requires [C06] lock: heldW(n)
 //@   requires n != nil && allocated(n) && allSafe() && sepOK()
 //@   ensures [C03,C05] safe: allSafe() && sepOK()
 //@   inv 1 [C05] bound: -1 <= rangeindex && rangeindex < len(n.children) && allSafe() && sepOK()
 //@   inv 1 [C03] only-covered: forall k int :: 0 <= k && k < len(dels) ==> hasPrefix(dels[k], prefix)
+//@   cut tree.node.clean 1 [C03] kept-across-recursion: (forall k int :: 0 <= k && k < len(dels) ==> hasPrefix(dels[k], prefix)) && fresh(dels) && allocated(dels) && unchanged("[]string")
+//@   inv 1 frame-strings: fresh(dels) && allocated(dels) && unchanged("[]string")
 //@   inv 2 [C05] bound2: -1 <= rangeindex && rangeindex < len(dels)
 //@   inv 2 [C03] only-covered: forall k int :: 0 <= k && k < len(dels) ==> hasPrefix(dels[k], prefix)
+//@   inv 2 frame-strings: unchanged("[]string")
 //@   atcall tree.removeNodes [C03] only-covered: arg0 == n.children && hasPrefix(arg1, prefix)
 //@   inv 2 [C03,C05] kids: allSafeExcept(n) && sepOK() && kidsOK(n) && sortedKinds(n) && n.root != nil && allocated(n.root) && segOK(n.segment) && hmOK(n) && parentOK(n)
 //
